@@ -36,7 +36,7 @@ def cases():
             if same_sim and GROUP_SHAPES[shape][1] != GROUP_SHAPES[shape][2]:
                 continue
             for src_kind, dest_kind in itertools.product(("persistent", "event", "none"), ("trigger", "non-trigger", "none")):
-                for ts, weak in ((0, False), (1, False), (2, False), (0, True)):
+                for ts, weak in ((0, False), (1, False), (2, False), (0, True), (1, True)):
                     for initial in (False, True):
                         for cache in (True, False):
                             for first in (None, (0, False), (2, False), (0, True)):
@@ -115,6 +115,15 @@ def snapshot(sims):
     return out
 
 
+def _connect(world, src, dest, ts, weak, initial):
+    """through the public entry point: World.connect(src, dest, (src_attr, dest_attr), ...) calls connect_one per pair"""
+    from mosaik.scenario import SENTINEL
+    kw = {}
+    if initial is not SENTINEL:
+        kw["initial_data"] = {"p": initial}
+    world.connect(src, dest, ("p", "q"), time_shifted=ts, weak=weak, **kw)
+
+
 def replay_connect_one(m):
     from mosaik.exceptions import ScenarioError
     from mosaik.scenario import SENTINEL
@@ -128,8 +137,7 @@ def replay_connect_one(m):
             fts, fweak = m["first"]
             _, ng = expected_delay(parents, si, di, fts, fweak)
             if not (fweak and ng):
-                world.connect_one(src, dest, "p", "q", time_shifted=fts, weak=fweak,
-                                  initial_data=0 if (fts or fweak) and m["dest_kind"] == "non-trigger" else SENTINEL)
+                _connect(world, src, dest, fts, fweak, 0 if (fts or fweak) and m["dest_kind"] == "non-trigger" else SENTINEL)
         before = snapshot(sims)
         ts, weak = m["time_shifted"], m["weak"]
         delay, no_group = expected_delay(parents, si, di, ts, weak)
@@ -138,7 +146,7 @@ def replay_connect_one(m):
                   or ((ts or weak) and m["dest_kind"] == "non-trigger" and not m["initial"]) or (weak and no_group))
         desc = f"connect_one({m}): "
         try:
-            world.connect_one(src, dest, "p", "q", time_shifted=ts, weak=weak, initial_data=7 if m["initial"] else SENTINEL)
+            _connect(world, src, dest, ts, weak, 7 if m["initial"] else SENTINEL)
         except ScenarioError:
             after = snapshot(sims)
             if not reject:
